@@ -85,6 +85,9 @@ type op struct {
 }
 
 func (o op) String() string {
+	if o.Kind == "register" {
+		return fmt.Sprintf("register(vf-probe, other definition %d)", o.Arg)
+	}
 	if o.Kind == "compile" {
 		return "compile(" + compileExprs[o.Arg] + ")"
 	}
@@ -112,6 +115,10 @@ func performFresh(o op) string {
 	if o.Kind == "compile" {
 		return performOn(o, nil)
 	}
+	if o.Kind == "register" {
+		defer verifrt.RestoreAll()
+		return performOn(o, nil)
+	}
 	ms := make([]*xpath.Machine, len(machineExprs))
 	ms[o.Arg] = compileMachine(o.Arg)
 	if o.Arg == customMachine {
@@ -122,8 +129,28 @@ func performFresh(o op) string {
 
 var ctxPositions = [][]mock.Elem{{{Name: "top"}, {Name: "ctx"}}, {{Name: "alt"}, {Name: "other"}}}
 
+// registerOther registers the custom function of machine 4 again with ANOTHER definition (another
+// implementation, and for Arg 1 another arity): machines compiled before keep the definition they
+// were compiled with.
+func registerOther(variant int) {
+	args := []xpath.DatumTypeChecker{xpath.TypeIsLiteral}
+	if variant == 1 {
+		args = []xpath.DatumTypeChecker{xpath.TypeIsLiteral, xpath.TypeIsLiteral}
+	}
+	xpath.RegisterCustomFunctions([]xpath.CustomFunctionInfo{{
+		Name:          "vf-probe",
+		FnPtr:         func(args []xpath.Datum) xpath.Datum { return xpath.NewLiteralDatum("OTHER-DEFINITION") },
+		Args:          args,
+		RetType:       xpath.TypeIsLiteral,
+		DefaultRetVal: xpath.NewLiteralDatum("OTHER-DEFAULT"),
+	}})
+}
+
 func performOn(o op, machines []*xpath.Machine) string {
 	switch o.Kind {
+	case "register":
+		registerOther(o.Arg)
+		return "registered"
 	case "compile":
 		m, err, p := xpx.Compile(compileExprs[o.Arg], nil)
 		switch {
@@ -237,7 +264,7 @@ func judge(sc scenario, s *verifrt.Sched, obs [][]string, want [][]string, choic
 
 func touchesTable(p []op) bool {
 	for _, o := range p {
-		if o.Kind == "compile" && o.Arg != 0 {
+		if (o.Kind == "compile" && o.Arg != 0) || o.Kind == "register" {
 			return true
 		}
 	}
@@ -247,7 +274,7 @@ func touchesTable(p []op) bool {
 func sharesMachine(a, b []op) bool {
 	for _, x := range a {
 		for _, y := range b {
-			if x.Kind != "compile" && y.Kind != "compile" && x.Arg == y.Arg {
+			if x.Kind != "compile" && y.Kind != "compile" && x.Kind != "register" && y.Kind != "register" && x.Arg == y.Arg {
 				return true
 			}
 		}
@@ -270,6 +297,9 @@ func programs() [][]op {
 		{{Kind: "run", Arg: 1, Ctx: 1}, {Kind: "run", Arg: 3}},
 		{{Kind: "run", Arg: 3, Ctx: 1}},
 		{{Kind: "rundebug", Arg: 0}, {Kind: "rundebug", Arg: 2}},
+		// (registering a custom function is a sequential, start-up time operation - it takes no lock
+		// of its own - and is therefore exercised in the histories only, not concurrently)
+		{{Kind: "run", Arg: customMachine, Ctx: 1}, {Kind: "run", Arg: customMachine}},
 	}
 }
 
@@ -400,6 +430,8 @@ func historyAlphabet() []op {
 	a = append(a, op{Kind: "runfail", Arg: 0}, op{Kind: "runfail", Arg: 1}, op{Kind: "runfail", Arg: 3, Ctx: 1})
 	// runs with the context's debug listing on: a diagnostic aid that must leave the machine as it was
 	a = append(a, op{Kind: "rundebug", Arg: 0}, op{Kind: "rundebug", Arg: 2}, op{Kind: "rundebug", Arg: 3, Ctx: 1})
+	// the custom function of machine 4 is registered again with another definition (other arity too)
+	a = append(a, op{Kind: "register", Arg: 0}, op{Kind: "register", Arg: 1})
 	return a
 }
 
@@ -600,7 +632,62 @@ func checkInputsUnchanged(a, b string) []engine.Violation {
 	return nil
 }
 
+// Oracle (d): registering a function again (a newer plugin, another arity, a plugin that takes the
+// name of a core function) does not change machines that were compiled before.
+func checkReRegistration(name, machineSrc string, variant int) []engine.Violation {
+	verifrt.RestoreAll()
+	defer verifrt.RestoreAll()
+	custom := name == "vf-probe"
+	if custom {
+		registerCustom()
+	}
+	var m *xpath.Machine
+	var err error
+	if custom {
+		m, err = expr.NewExprMachineWithCustomFunctions(machineSrc, nil)
+	} else {
+		m, err, _ = xpx.Compile(machineSrc, nil)
+	}
+	if err != nil || m == nil {
+		return []engine.Violation{{Key: "harness-reregistration-machine-does-not-compile", Witness: machineSrc, Detail: fmt.Sprint(err)}}
+	}
+	t := mock.NewTree()
+	run := func() string {
+		t.Reset()
+		return xpx.RunMachine(m, t.At(ctxPositions[1]...)).String() + " listing=" + m.PrintMachine()
+	}
+	before := run()
+	args := []xpath.DatumTypeChecker{xpath.TypeIsLiteral}
+	for i := 0; i < variant; i++ {
+		args = append(args, xpath.TypeIsLiteral)
+	}
+	xpath.RegisterCustomFunctions([]xpath.CustomFunctionInfo{{Name: name,
+		FnPtr: func(args []xpath.Datum) xpath.Datum { return xpath.NewLiteralDatum("OTHER-DEFINITION") },
+		Args:  args, RetType: xpath.TypeIsLiteral, DefaultRetVal: xpath.NewLiteralDatum("OTHER-DEFAULT")}})
+	after := run()
+	if before != after {
+		return []engine.Violation{{Key: "registration-changes-compiled-machine:" + name, Witness: fmt.Sprintf("machine %s; then %s is registered again with %d argument(s)", machineSrc, name, len(args)),
+			Detail: fmt.Sprintf("before %q, after %q", before, after), Harness: "matrix", Replay: engine.JSON(matrixRec{Machine: "rereg:" + name + ":" + fmt.Sprint(variant) + ":" + machineSrc})}}
+	}
+	return nil
+}
+
 func functionMatrix(c *engine.Ctx) {
+	for _, rr := range [][2]string{{"vf-probe", "vf-probe(string(a))"}, {"contains", "contains(a, 'alt')"}, {"string-length", "string-length(a) > 2"}, {"concat", "concat(a, 'x')"}} {
+		for variant := 0; variant < 3; variant++ {
+			id := fmt.Sprintf("matrix:r:%s:%d", rr[0], variant)
+			if !c.Owns(id) || !c.Case(id) {
+				continue
+			}
+			c.Add("states", 1)
+			c.Nontrivial()
+			vs := checkReRegistration(rr[0], rr[1], variant)
+			c.Outcome(fmt.Sprintf("matrix:re-registration:viol=%v", len(vs) > 0))
+			for _, v := range vs {
+				c.Report(v)
+			}
+		}
+	}
 	for _, a := range sharedValueExprs {
 		for _, b := range sharedValueExprs {
 			id := "matrix:s:" + a + "|" + b
@@ -675,6 +762,12 @@ func replay(c *engine.Ctx, sub string, raw json.RawMessage) []engine.Violation {
 		var mr matrixRec
 		if json.Unmarshal(raw, &mr) != nil {
 			return []engine.Violation{{Key: "harness-bad-replay-file"}}
+		}
+		if strings.HasPrefix(mr.Machine, "rereg:") {
+			parts := strings.SplitN(mr.Machine, ":", 4)
+			v := 0
+			fmt.Sscanf(parts[2], "%d", &v)
+			return checkReRegistration(parts[1], parts[3], v)
 		}
 		if strings.HasPrefix(mr.Machine, "shared:") {
 			return checkInputsUnchanged(strings.TrimPrefix(mr.Machine, "shared:"), mr.Then)
